@@ -369,6 +369,60 @@ theorem C05_component_gates :
     ("FileSystem", Root.fileSystem) ∈ rootOf := by
   decide +kernel
 
+/-- does the static manager of class `c` carry on every edge `k` EXACTLY the rules `gate r k`? -/
+def gatesExact (S : Schema) (c : String) (r : Root) : Bool :=
+  match S.mgr c with
+  | some (.static es) => es.all (fun e => decide (e.2.1 = gate r e.1))
+  | _ => false
+
+/-- a manager without any rule: every edge allow-all -/
+def noRules : Mgr → Bool
+  | .static es => es.all (fun e => e.2.1.isEmpty)
+  | .dynamic _ _ v => v.isEmpty
+
+open Primaite.Gen.RequestSchema (rootOf) in
+/-- (table) THE CONTRACT IS EXACT AND COMPLETE over the regenerated schema: every class / auxiliary manager of `rootOf` carries
+on every edge exactly `gate kind key` — so the type-specific verbs, `compromise`, `disable`, `create`, `restore`, `access`
+carry exactly NO rule — and every other manager of the schema (the dynamic levels, the firewall's port / direction managers,
+`software_manager`, `AccessControlList`, `Simulation`, `Network`, files, …) carries no rule at all. -/
+theorem C05_contract_exact :
+    (∀ cr ∈ rootOf, gatesExact schema cr.1 cr.2 = true) ∧
+    (∀ nm ∈ schema.mgrs, (rootOf.map (·.1)).contains nm.1 = false → noRules nm.2 = true) := by
+  decide +kernel
+
+/-- (general) the other direction of `C05_gate_refuses`: on an instance of a schema whose class `c` carries EXACTLY the
+gates, a request entering that class's root manager through `k` is NOT refused there when the rules `gate r k` hold — i.e.
+when every validator named `gate r k` answers true for these options: no rule outside the contract can refuse it at this
+edge (for a verb the table maps to `[]`: nothing can). -/
+theorem C05_gate_exact_admits (S : Schema) (vn : VId → Validator) (c : String) (r : Root) (inv : Inv) (kids : Kids)
+    (hinst : Inst S vn c inv kids) (hg : gatesExact S c r = true)
+    (k : Key) (rest : List Key) (vs : Validator) (tgt : Target) (edges : List Edge)
+    (hm : S.mgr c = some (.static edges)) (hk : lookupE k edges = some (vs, tgt)) (env : Env)
+    (htrue : ∀ v, vn v = gate r k → env v rest = true) (d : Nat) :
+    ∀ v, dispatchK env kids (k :: rest) d ≠ .failure d v := by
+  have hvs : vs = gate r k := by
+    simp only [gatesExact, hm, List.all_eq_true] at hg
+    have := hg _ (lookupE_mem hk)
+    simpa using this
+  intro v0
+  cases hinst with
+  | @static _ _ _ edges' hm' hleaf hsub hrec =>
+    rw [hm] at hm'
+    cases hm'
+    cases tgt with
+    | leaf =>
+      obtain ⟨v, h, hlk, hvn⟩ := hleaf k vs hk
+      simp [dispatchK, hlk, htrue v (by rw [hvn, hvs])]
+    | sub m' =>
+      obtain ⟨v, kids', hlk, hvn⟩ := hsub k vs m' hk
+      simp only [dispatchK, hlk, htrue v (by rw [hvn, hvs]), if_true]
+      intro hf
+      have := (C05_depth_bounded env kids' rest (d + 1)).2 d v0 hf
+      omega
+  | @dynamic _ _ _ lv ty vs' hm' hkey hrec =>
+    rw [hm] at hm'
+    cases hm'
+
 /-- (general) On every live tree that is an instance of a schema whose class `c` carries the gates of kind `r`: a request
 that enters the root manager of a component of class `c` through key `k` while one of the gate rules of `(r, k)` is false —
 i.e. every live validator that contains that rule answers false for these options — is refused right there: `failure` at
@@ -533,4 +587,21 @@ example : ∃ v, dispatchK envNodeOff exFwKids ("internal" :: ["inbound", "acl",
     (.sub "Firewall._internal_acl_request_manager") exFwEdges (by decide +kernel) (by decide +kernel)
     .nodeIsOn (by decide) envNodeOff (by intro v hv; simp [envNodeOff, hv]) 3
 
+/-! non-vacuity of `C05_gate_exact_admits`: `execute` of an application carries no rule — it is not refused at the
+application's manager even when every application-state rule is false (the application is CLOSED) -/
+def exNmapKids : Kids := buildK schema exVid 6 "NMAP" (.mk [])
+def exNmapEdges : List Edge := match schema.mgr "NMAP" with | some (.static es) => es | _ => []
+theorem exNmapKids_inst : Inst schema exVn "NMAP" (.mk []) exNmapKids :=
+  instB_sound schema exVn 6 "NMAP" (.mk []) exNmapKids (by decide +kernel)
+/-- every validator that mentions an application state answers false -/
+def envAppClosed : Env := fun v _ => !(exVn v).any (fun a => match a with | .appState _ => true | _ => false)
+
+example : ∀ v, dispatchK envAppClosed exNmapKids ["execute"] 5 ≠ .failure 5 v :=
+  C05_gate_exact_admits schema exVn "NMAP" .application (.mk []) exNmapKids exNmapKids_inst
+    (C05_contract_exact.1 ("NMAP", .application) (by decide +kernel)) "execute" [] [] .leaf exNmapEdges
+    (by decide +kernel) (by decide +kernel) envAppClosed (by intro v hv; simp [envAppClosed, hv, gate]) 5
+/-- while `scan` IS refused there (its gate is application-is-RUNNING) -/
+example : ∃ v, dispatchK envAppClosed exNmapKids ["scan"] 5 = .failure 5 v := ⟨exVid [.appState "RUNNING"], by decide +kernel⟩
+
 end Primaite.Schema
+
